@@ -31,7 +31,7 @@ def _(v):
     comp = v.dict("composition", K="int", V="real", key_lo=0, key_hi=118, val_lo=-50, val_hi=50, maxlen=5)
     ram = periodic.relative_atomic_masses
     term = mass_term(ram)
-    v.invariant(periodic.mass_from_composition, 0, lambda env, i, seq: env["mass"] == SP.ssum_prefix(seq, i, term))
+    v.invariant(periodic.mass_from_composition, 0, lambda env, i, seq: env["@acc"] == SP.ssum_prefix(seq, i, term))
     r = v.call(periodic.mass_from_composition, comp)
     v.prove("post", v.eq(r, SP.ssum(comp, term)))
     v.prove("canary", SP.neg(v.eq(r, SP.ssum(comp, term) + 1)))
